@@ -238,12 +238,15 @@ FreshVal(k) == CASE k[1] = "miu" /\ k[3] = "x_size"    -> \h20
                  [] k[1] = "miu" /\ k[3] = "mmio_base" -> \h8000
                  [] k[1] = "bt"  /\ k[3] = "empty"     -> 1
                  [] OTHER -> 0
-Fresh == [k \in Keys |-> FreshVal(k)]
+\* TLC keeps [x \in S |-> e] as an unevaluated lambda (and stacks EXCEPTs on it); TLCEval makes it an
+\* explicit table once
+Tab(f) == TLCEval(f)
+Fresh == Tab([k \in Keys |-> FreshVal(k)])
 \* a fresh object whose (uninitialised) ICU vector arrays happen to hold iv = <<low, high, ctx>>
-FreshWith(iv) == [k \in Keys |-> IF k[1] = "icu" /\ k[3] = "vlow"  THEN iv[1][k[2] + 1]
-                            ELSE IF k[1] = "icu" /\ k[3] = "vhigh" THEN iv[2][k[2] + 1]
-                            ELSE IF k[1] = "icu" /\ k[3] = "vctx"  THEN iv[3][k[2] + 1]
-                            ELSE FreshVal(k)]
+FreshWith(iv) == Tab([k \in Keys |-> IF k[1] = "icu" /\ k[3] = "vlow"  THEN iv[1][k[2] + 1]
+                                ELSE IF k[1] = "icu" /\ k[3] = "vhigh" THEN iv[2][k[2] + 1]
+                                ELSE IF k[1] = "icu" /\ k[3] = "vctx"  THEN iv[3][k[2] + 1]
+                                ELSE FreshVal(k)])
 
 (* Teakra::Reset = miu, both apbp, both timers, ahbm, dma, both btdmp,       *)
 (* processor.  NOT touched: the ICU (request, enables, vectors), every        *)
@@ -252,7 +255,7 @@ FreshWith(iv) == [k \in Keys |-> IF k[1] = "icu" /\ k[3] = "vlow"  THEN iv[1][k[
 (* it).  This is the C17 suspect D4, modelled as the code is.                *)
 ResetKey(k) == \/ k[1] \in { "timer", "miu", "ahbm", "dma", "dmac", "bt" }
                \/ (k[1] = "apbp" /\ k[3] \notin { "dis0", "dis1", "dis2" })
-ResetEffect(s) == [k \in DOMAIN s |-> IF ResetKey(k) THEN FreshVal(k) ELSE s[k]]
+ResetEffect(s) == Tab([k \in DOMAIN s |-> IF ResetKey(k) THEN FreshVal(k) ELSE s[k]])
 SurvivesReset  == { k \in Keys : ~ ResetKey(k) }
 
 Ok(s)    == [s |-> s, out |-> "ok"]
@@ -478,6 +481,7 @@ Touches(A) == LET k == RegOf(A).k  d == RegOf(A).key[1] IN
 HiddenFrameAt(s, A, v) ==
     LET w == Write(s, A, v) IN
     \A k \in DOMAIN s : w.s[k] # s[k] =>
+        /\ w.s[k] \in 0..65535
         /\ k[1] \in Touches(A)
         /\ k[1] = "timer" => k[2] = (IF A >= \h30 THEN 1 ELSE 0)
         /\ k[1] = "dma"   => k[2] = s[ActiveK]
@@ -492,8 +496,8 @@ ReadPurityAt(s, A) ==
 \* (iii) the eight channel windows are independent: writing window register A of channel c changes no
 \* channel d # c, as seen through the window after selecting d, and channel c keeps the value.
 \* m(W) = the bits compared: DocMask(W) (documented fields) or 0xFFFF (whole register, strict form)
-ChannelIndependentAt(s, A, v, strict) ==
-    \A c \in 0..7, d \in 0..7 : c # d =>
+ChannelIndependentAt(s, A, v, strict, CS) ==
+    \A c \in CS, d \in 0..7 : c # d =>
         LET m(W) == IF strict THEN RWMask(W) ELSE DocMask(W)
             sc  == Write(s, \h1BE, c).s
             s1  == Write(sc, A, v).s
